@@ -322,6 +322,8 @@ func capClass(n uint64) string {
 		return "few small"
 	case n < 100000:
 		return "some 8KiB"
+	case n >= 1<<62:
+		return "around 2^63 / max uint64"
 	}
 	return "ample"
 }
@@ -337,7 +339,7 @@ func exhaustive(t *testing.T, L int) {
 		}
 		alphabet = append(alphabet, Op{Key: k})
 	}
-	caps := []uint64{0, 50, 330, 700, 9000, 17500, 1 << 20}
+	caps := []uint64{0, 50, 330, 700, 9000, 17500, 1 << 20, 1 << 63, 1<<64 - 1}
 	shard, nshards := evid.Shard()
 	total := 1
 	for i := 0; i < L; i++ {
@@ -362,7 +364,7 @@ func exhaustive(t *testing.T, L int) {
 
 func drawCase(t *rapid.T) *Case {
 	c := &Case{}
-	c.Cap = rapid.SampledFrom([]uint64{0, 1, 100, 250, 330, 500, 1000, 4000, 9000, 17000, 40000, 70000, 200000, 1 << 22}).Draw(t, "cap")
+	c.Cap = rapid.SampledFrom([]uint64{0, 1, 100, 250, 330, 500, 1000, 4000, 9000, 17000, 40000, 70000, 200000, 1 << 22, 1<<63 - 1, 1 << 63, 1<<63 + 1, 1<<64 - 1}).Draw(t, "cap")
 	if rapid.IntRange(0, 3).Draw(t, "capmode") == 0 {
 		c.Cap = uint64(rapid.IntRange(0, 100000).Draw(t, "capn"))
 	}
@@ -441,6 +443,39 @@ func rePutOracle(c *RePutCase) error {
 		if bm.GetSizeInBytes()+slack <= c.Cap {
 			if _, ok := cache.Get(7); !ok {
 				return fmt.Errorf("the re-stored bitmap (%d bytes) fits capacity %d but is not retrievable", bm.GetSizeInBytes(), c.Cap)
+			}
+		}
+		// recency: storing the same object again under its key counts as use.
+		// fresh cache: key 7 first (oldest), then the others, then 7 again with the
+		// SAME object; fillers follow until something is evicted - while any of
+		// the older "others" is still there, 7 must be there too
+		c2 := updog.NewLRUCache(c.Cap)
+		same := mk(ShArray, 9999)
+		c2.Put(7, same)
+		for i := 0; i < c.Others; i++ {
+			c2.Put(uint64(100+i), mk(ShArray, i))
+		}
+		c2.Put(7, same)
+		if c.Others > 0 && same.GetSizeInBytes()*uint64(c.Others+3)+uint64(c.Others+3)*slack <= c.Cap {
+			for i := 0; i < int(c.Cap/60)+50 && i < 20000; i++ {
+				c2.Put(uint64(1<<40+i), mk(ShArray, 20000+i))
+				if i%7 == 6 {
+					// probing refreshes recency: the others are probed first and
+					// key 7 last, so that 7 stays the most recently used of them
+					anyOlder := false
+					for j := 0; j < c.Others; j++ {
+						if _, ok := c2.Get(uint64(100 + j)); ok {
+							anyOlder = true
+						}
+					}
+					_, has7 := c2.Get(7)
+					if !has7 && anyOlder {
+						return fmt.Errorf("key 7 was stored again (same object) AFTER the %d other entries, yet it was evicted while older entries survive: storing under an existing key did not count as use", c.Others)
+					}
+					if !has7 {
+						break
+					}
+				}
 			}
 		}
 		return nil
